@@ -248,6 +248,13 @@ class C05(Prop):
                     rng.random() < 0.1:
                 op['props']['graceful_timeout'] = rng.choice(['@nan', '@nan',
                                                               -1, 1e-9])
+            if op['op'] == 'req' and op['cmd'] in ('incr', 'decr') and \
+                    rng.random() < 0.15:
+                # an amount that passes validation and fails the operation
+                # itself: the request is owed an answer all the same
+                op['props']['nb'] = rng.choice(['x', '2', None, 1.5, [1], {},
+                                                -3, 0])
+                op['waiting'] = True
             if op['op'] == 'req' and op['cmd'] == 'set' and \
                     rng.random() < 0.15:
                 op['props']['options'] = {
